@@ -147,7 +147,7 @@ PROPS['C08'] = {
 PROPS['C12'] = {
     'level': 'exploration',
     'trusted_extra': ['sub-slice write shims slice_copy_at / slice_fill_at / be_write_uN_at_slice (vx/shims/slices.rs; cross-checked by KX k_shim_slices), String::as_bytes/len = UTF-8 encoding (vx/shims/string.rs)'],
-    'vx': [{'unit': 'writers'}, {'unit': 'attrs', 'functions': ['to_raw', 'length', 'get_type', "RawAttribute<'a> :: new", 'padded']}, {'unit': 'builder', 'functions': ['write_into', 'into_owned', 'to_owned']}],
+    'vx': [{'unit': 'writers'}, {'unit': 'attrs', 'functions': ['to_raw', 'length', 'get_type', "RawAttribute<'a> :: new", 'padded']}, {'unit': 'builder', 'functions': ['write_into', 'into_owned', 'to_owned', 'lemma_layout_congruent']}],
     'kx': ['k_shim_slices', 'k_shim_write_u16', 'k_shim_u128'] + ['k12_raw_attribute'] + [k for k in _ATTR_K if k not in ('k_check_len', 'k08_error_code_new', 'k08_unknown_attributes_small')],
     'bx': ['c12'],
     'rule': 'Kani harnesses: helper check_writers (in-place writer vs RFC layout vs raw conversion, 0xAA-filled oversize buffer, every shorter buffer) on every decodable value of the fixed-size types; BX for variable-length types and builders.',
@@ -157,8 +157,8 @@ PROPS['C12'] = {
                '(Kani, complete) fixed-size types incl. FINGERPRINT, XOR-MAPPED-ADDRESS, ALTERNATE-SERVER, PASSWORD-ALGORITHM: write_into == RFC layout == to_raw(); every shorter destination => TooSmall, destination untouched',
                '(Verus, unit builder, attribute lists of ANY length) MessageBuilder::write_into: a destination shorter than byte_len() => Err(TooSmall{expected: byte_len, actual}) and nothing written; an exact or larger one receives header + TLVs, the length is reported and nothing beyond it is touched',
                '(Verus, unit writers / attrs) to_raw() of ERROR-CODE, UNKNOWN-ATTRIBUTES, PASSWORD-ALGORITHMS (lists of any length; RawAttribute::new_owned) and of the five string types has the same type and exactly the value bytes of the in-place writer - with RawAttribute::to_bytes == tlv_bytes this is "writing in place and converting to raw and serialising give the same bytes" for 8 variable-length types + raw; the fixed-size types by Kani',
-               '(Verus, unit builder) borrowed -> owned: Data::into_owned, DataSlice::to_owned, RawAttribute::into_owned keep header and value bytes; AttrOrRaw::into_owned turns a typed attribute into a raw one of the same type and value (over the to_raw contract) - so the owned element serialises to the same TLV'],
-    'bounded': ['MessageBuilder::into_owned applies AttrOrRaw::into_owned to every element in order (into_iter().map().collect()), clone(): BX', 'MessageBuilder build() == write_into() bytes, byte_len (iterator sum; assumed in VX), into_owned/clone (dyn AttributeWrite -> to_raw): BX'],
+               '(Verus, unit builder) borrowed -> owned: Data::into_owned, DataSlice::to_owned, RawAttribute::into_owned keep header and value bytes; AttrOrRaw::into_owned turns a typed attribute into a raw one of the same type and value (over the to_raw contract); MessageBuilder::into_owned (into_iter().map().collect(), specified by vstd) keeps header fields and, element by element in order, type and value bytes; lemma_layout_congruent: such a builder has the same layout - so write_into after into_owned() writes identical bytes'],
+    'bounded': ['MessageBuilder::clone() (derived; Verus gives derived Clone of non-Copy types no specification): BX', 'MessageBuilder build() == write_into() bytes, byte_len (iterator sum; assumed in VX), into_owned/clone (dyn AttributeWrite -> to_raw): BX'],
     'trusted': _KX_TRUST,
 }
 
@@ -250,7 +250,7 @@ PROPS['C03'] = {
                '(unit builder) sealing: add_fingerprint_unchecked / add_message_integrity_unchecked append exactly one attribute whose value is the CRC / HMAC of build() with the adjusted length field (over the assumed contracts of build(), the crc/hmac crates and make_hmac_key), and the composition theorems show the sealed serialisation satisfies fp_ok / mi_correct / mi256_correct; AttrOrRaw::into_owned, RawAttribute::into_owned, Data::into_owned preserve type and value bytes',
                '(in C02/C10) the parser accepts exactly the well-formed buffers and exposes them faithfully - so "parses back identically" reduces to "the builder concatenates header and attribute TLVs as specified" (now proved for write_into) plus the sealing values'],
     'bounded': ['byte_len (iterator map/sum) == 20 + padded TLV sizes: assumed in VX, BX compares it with build().len() and the independent serialiser',
-                'build() (vec![0; byte_len] then write_into; iterator sum): assumed == header + TLVs in VX; MessageBuilder::into_owned/clone (iterator map/collect): BX random builder programs',
+                'build() (vec![0; byte_len] then write_into; iterator sum): assumed == header + TLVs in VX; MessageBuilder::clone: BX random builder programs',
                 'typed value equality after the round trip for UNKNOWN-ATTRIBUTES (decoder uses chunks_exact) and constructors: BX'],
     'trusted': _BX_TRUST + ['AttributeWriteExt::write_into on dyn AttributeWrite / RawAttribute: assumed in unit builder with the contract proved in unit writers (same text); be_write_u128_at_slice / be_write_u16_slice shims (KX k_shim_u128)'],
 }
@@ -300,7 +300,7 @@ LEVEL_TEXT = {
  'C09': "Proof: an accepted buffer with a FINGERPRINT at offset o satisfies value == crc32(bytes[..o] with length field o+8-20) ^ 0x5354554e and o+8 == len (clause fp_ok of wf_message, verified for all buffers); XOR constant by Kani for all 2^32 values. That Fingerprint::compute is CRC-32/ISO-HDLC, the builder side and the corruption sweeps are bounded.",
  'C10': "Proof: the iterator is verified to yield exactly the exposure rule of the statement on every accepted message; the 'hence' clauses (non-sealing exposed attributes lie before the end of the first integrity attribute; prefix stability) are spec-level lemmas; validate_integrity checks an exposed attribute over that prefix (C04). Lookups through `find`/`any` are bounded.",
  'C11': "Exploration: the four guard functions of the real MessageBuilder are verified by Verus against the ordering rules of the statement (refused exactly when ..., refused => builder unchanged, accepted => appended), but over ASSUMED contracts for the two iterator-adaptor query helpers and the two sealing workers (SmallVec/dyn/HMAC are outside the verifier); those assumptions and the whole-sequence statement are decided by exhaustive operation sequences up to length 5/6 over the sealing alphabet plus random programs on the real builder - hence exploration.",
- 'C12': "Exploration: for raw attributes and 15 typed attributes the in-place writer, the size guard of write_into and to_bytes are proved equal to the RFC TLV layout for values of any length (Verus), 4 more types by Kani; MessageBuilder::write_into's guard / exact-or-larger / nothing-beyond clauses are proved for attribute lists of any length (Verus). build() vs write_into (iterator sum), MessageBuilder::into_owned()/clone() (iterator map/collect) are bounded - hence exploration.",
+ 'C12': "Exploration: for raw attributes and 15 typed attributes the in-place writer, the size guard of write_into and to_bytes are proved equal to the RFC TLV layout for values of any length (Verus), 4 more types by Kani; MessageBuilder::write_into's guard / exact-or-larger / nothing-beyond clauses are proved for attribute lists of any length (Verus). build() vs write_into (iterator sum; vstd has no specification of Iterator::sum and none can be added for a provided trait method) and clone() are bounded - hence exploration.",
  'C13': "Proof: complete Kani harnesses over all IPv4/IPv6 addresses x ports x transaction ids (fixed trip-count loops unwound with assertions): round trip, RFC wire bytes, other transaction id.",
  'C14': "Proof: push_data/pull_data/take verified against the abstract pull step; the stream-level statement (any frame list, any chunking, any interleaving) is theorem_history, an induction over those contracts (unique decoding of the length-prefixed stream).",
  'C15': "Proof: whole-set postconditions on validated_peers for every operation in Verus and theorem_peers (monotone; validated exactly by an Incoming/Deliver event from that address). StunAgent::poll never names the set (bounded confirmation).",
